@@ -2905,12 +2905,49 @@ static Node *struct_ref(Node *node, Token *tok) {
   return node;
 }
 
-// Convert A++ to `(typeof A)((A += 1) - 1)`
+// Convert A++ to `tmp = &A, old = *tmp, *tmp = old + 1, old`
 static Node *new_inc_dec(Node *node, Token *tok, int addend) {
   add_type(node);
-  return new_cast(new_add(to_assign(new_add(node, new_num(addend, tok), tok)),
-                          new_num(-addend, tok), tok),
-                  node->ty);
+
+  // An atomic object is updated by a single read-modify-write
+  // operation: convert A++ to `(typeof A)((A += 1) - 1)`.
+  if (node->ty->is_atomic)
+    return new_cast(new_add(to_assign(new_add(node, new_num(addend, tok), tok)),
+                            new_num(-addend, tok), tok),
+                    node->ty);
+
+  // The result is the value A had before, which in general cannot be
+  // recomputed from the new value (_Bool, bit-fields, floating types).
+  Node *expr1, *lval1, *lval2;
+
+  if (node->kind == ND_MEMBER) {
+    // A bit-field has no address, so take the address of the struct.
+    Obj *var = new_lvar("", pointer_to(node->lhs->ty));
+    expr1 = new_binary(ND_ASSIGN, new_var_node(var, tok),
+                       new_unary(ND_ADDR, node->lhs, tok), tok);
+    lval1 = new_unary(ND_MEMBER, new_unary(ND_DEREF, new_var_node(var, tok), tok), tok);
+    lval1->member = node->member;
+    lval2 = new_unary(ND_MEMBER, new_unary(ND_DEREF, new_var_node(var, tok), tok), tok);
+    lval2->member = node->member;
+  } else {
+    Obj *var = new_lvar("", pointer_to(node->ty));
+    expr1 = new_binary(ND_ASSIGN, new_var_node(var, tok),
+                       new_unary(ND_ADDR, node, tok), tok);
+    lval1 = new_unary(ND_DEREF, new_var_node(var, tok), tok);
+    lval2 = new_unary(ND_DEREF, new_var_node(var, tok), tok);
+  }
+
+  Obj *old = new_lvar("", node->ty);
+  Node *expr2 = new_binary(ND_ASSIGN, new_var_node(old, tok), lval1, tok);
+  Node *expr3 = new_binary(ND_ASSIGN, lval2,
+                           new_add(new_var_node(old, tok), new_num(addend, tok), tok),
+                           tok);
+
+  return new_binary(ND_COMMA, expr1,
+                    new_binary(ND_COMMA, expr2,
+                               new_binary(ND_COMMA, expr3, new_var_node(old, tok), tok),
+                               tok),
+                    tok);
 }
 
 // postfix = "(" type-name ")" "{" initializer-list "}"
